@@ -2,7 +2,7 @@
    "exactly the associated data attached" is FALSE for empty associated data (refutation proved; known
    finding C18/empty-aux).  Worker-thread independence is rayon's contract: the model is sequential and the
    check compares it with the Rust under pools of 1..16 threads and shuffled inputs. *)
-From Coq Require Import ZArith NArith List.
+From Coq Require Import ZArith NArith List Permutation.
 Import ListNotations.
 From StarV Require Import Params Bytes Strobe Fp Shamir Adss Star Wasm FieldFacts AdssFacts CodecFacts StarFacts WasmFacts.
 
@@ -32,6 +32,33 @@ Proof. exact collect_spec. Qed.
 Theorem C18_tags_once : forall msgs : list message,
   NoDup (first_tags msgs) /\ (forall T, ~ In T (first_tags msgs) -> filter (has_tag T) msgs = []).
 Proof. exact first_tags_inv. Qed.
+
+(* THE statement: every report honest, groups told apart by their tags, every group that reaches the threshold
+   has t distinct share points.  Then the output is, in the order tags are first seen, exactly one entry per
+   group with at least t reports, carrying that group's measurement and, per client in input order, the
+   associated data it attached (empty reported as absent); groups below the threshold contribute nothing *)
+Theorem C18_aggregate : forall (F : list N -> list N), (forall l, wf (F l)) -> forall (e : bytes) (t : N) (items : list item),
+  (1 <= t < two32)%N ->
+  Forall (fun it => fits32 (gm (fst it)) /\ client_ok (gm (fst it)) (snd it) /\
+                    polys_from F t (sharing_of F (commune_of F t (grnd (fst it)))) = Ok (Some (gpolys (fst it)))) items ->
+  (forall a b, In a items -> In b items -> itag F a = itag F b -> fst a = fst b) ->
+  (forall T, qualifies F t items T = true ->
+     (t <= N.of_nat (length (nodup fp_eq_dec (map snd (clients_of F items T)))))%N) ->
+  aggregate F t e (map (imsg F e t) items) =
+  Ok (map (fun T => (gm_of F items T, map (fun cl => norm_aux (fst cl)) (clients_of F items T)))
+          (filter (qualifies F t items) (first_tags (map (imsg F e t) items)))).
+Proof. exact aggregate_honest. Qed.
+
+(* input order: a permutation of the reports leaves the set of tags, which groups qualify, and each group's
+   multiset of clients unchanged - so the output is the same multiset of (measurement, multiset of aux) *)
+Theorem C18_perm_tags : forall l l' : list message, Permutation l l' -> Permutation (first_tags l) (first_tags l').
+Proof. exact first_tags_perm. Qed.
+Theorem C18_perm_clients : forall (F : list N -> list N) (items items' : list item) (T : bytes),
+  Permutation items items' -> Permutation (clients_of F items T) (clients_of F items' T).
+Proof. exact clients_perm. Qed.
+Theorem C18_perm_qualifies : forall (F : list N -> list N) (t : N) (items items' : list item) (T : bytes),
+  Permutation items items' -> qualifies F t items T = qualifies F t items' T.
+Proof. exact qualifies_perm. Qed.
 
 Theorem C18_exact_aux_refuted : exists (m : bytes) (aux : option bytes),
   parse_payload (payload m aux) = Ok (m, None) /\ aux <> None.
